@@ -16,7 +16,9 @@
      aead_dist : no two sealings under one (key, nonce) differ in exactly one byte
                  (the authenticator of another plaintext differs; single-byte theorem only).
    All are satisfied by an executable instance (c32_hypotheses_satisfiable); secrecy is
-   not part of the property.  DH, hashes and signatures are arbitrary functions.
+   not part of the property.  The hashes are arbitrary functions; DH and signatures are
+   arbitrary functions too, constrained only in c32_handshake_honest (keys_ok: DH commutes,
+   honest signatures verify, key/signature lengths 32/64).
 
    A direction of a connection is a [link]: the sender's state, the bytes in transit
    (a reliable FIFO), the receiver's state.  [synced l]: same key, send nonce = receive
@@ -152,8 +154,51 @@ Theorem c32_hypotheses_satisfiable :
 Proof. exact toy_aead. Qed.
 Print Assumptions c32_hypotheses_satisfiable.
 
-(* PARTIAL.  Not proved: the composition of two honest handshakes (both succeed, remote
-   keys crossed, same secret, crossed nonces, empty buffers) - Main.c32_handshake_honest_full.
-   Its ingredients are c32_nonce_sync and c32_auth above; the composition is exercised on
-   every run by real/real handshakes (oracle: crossed nonces, equal secrets, remote keys). *)
-Definition c32_handshake_honest_full_statement : Prop := c32_handshake_honest_full.
+(* Two honest ends.  [keys_ok]: DH commutes (dh (eph_pub a) b = dh (eph_pub b) a), honest
+   signatures verify (verify (pk k) m (sign k m) = true), public keys are 32 and signatures
+   64 bytes (so the authentication message is the 100 bytes the code reads).  With different
+   ephemeral public keys, the two runs of MakeSecretConnection - each fed exactly what the
+   other one sends - both succeed and consume everything; each side's remote key is the
+   other's public key; the secrets are equal; the nonces are crossed; nothing is buffered. *)
+Theorem c32_handshake_honest :
+  forall (seal : bytes -> bytes -> bytes -> bytes) (open : bytes -> bytes -> bytes -> option bytes)
+         (dh : bytes -> bytes -> bytes) (h24 h32 : bytes -> bytes)
+         (sign : bytes -> bytes -> bytes) (verify : bytes -> bytes -> bytes -> bool)
+         (eph_pub pk : bytes -> bytes),
+    aead_ok 16 seal open -> keys_ok dh sign verify eph_pub pk ->
+    forall skA skB ea eb, eph_pub ea <> eph_pub eb ->
+    exists outA outB scA scB,
+      handshake 1024 16 seal open dh h24 h32 sign verify (pk skA) skA (eph_pub ea) ea outB = Ok (scA, [], outA) /\
+      handshake 1024 16 seal open dh h24 h32 sign verify (pk skB) skB (eph_pub eb) eb outA = Ok (scB, [], outB) /\
+      remPub scA = pk skB /\ remPub scB = pk skA /\ key scA = key scB /\
+      sendNonce scA = recvNonce scB /\ sendNonce scB = recvNonce scA /\
+      recvBuffer scA = [] /\ recvBuffer scB = [].
+Proof. exact handshake_honest_full. Qed.
+Print Assumptions c32_handshake_honest.
+
+(* ... so c32_stream is a corollary of the handshake: after an honest handshake both
+   directions are synced, and for EVERY interleaving of writes and reads in either
+   direction the reader gets exactly a prefix of what the writer wrote
+   ([stream_holds] is the conclusion of c32_stream for that link). *)
+Theorem c32_stream_after_handshake :
+  forall (seal : bytes -> bytes -> bytes -> bytes) (open : bytes -> bytes -> bytes -> option bytes)
+         (dh : bytes -> bytes -> bytes) (h24 h32 : bytes -> bytes)
+         (sign : bytes -> bytes -> bytes) (verify : bytes -> bytes -> bytes -> bool)
+         (eph_pub pk : bytes -> bytes),
+    aead_ok 16 seal open -> keys_ok dh sign verify eph_pub pk ->
+    forall skA skB ea eb, eph_pub ea <> eph_pub eb ->
+    exists outA outB scA scB,
+      handshake 1024 16 seal open dh h24 h32 sign verify (pk skA) skA (eph_pub ea) ea outB = Ok (scA, [], outA) /\
+      handshake 1024 16 seal open dh h24 h32 sign verify (pk skB) skB (eph_pub eb) eb outA = Ok (scB, [], outB) /\
+      remPub scA = pk skB /\ remPub scB = pk skA /\
+      synced (mkLink scA [] scB) /\ synced (mkLink scB [] scA) /\
+      stream_holds seal open (mkLink scA [] scB) /\ stream_holds seal open (mkLink scB [] scA).
+Proof. exact stream_after_handshake. Qed.
+Print Assumptions c32_stream_after_handshake.
+
+(* the hypotheses on the key agreement and the signatures are satisfiable (toy DH, toy
+   signature scheme; Main.ex_honest_toy instantiates the whole chain with them) *)
+Theorem c32_key_hypotheses_satisfiable :
+  keys_ok toy_dh toy_sign toy_verify toy_eph_pub toy_pk.
+Proof. exact toy_keys. Qed.
+Print Assumptions c32_key_hypotheses_satisfiable.
